@@ -9,6 +9,11 @@ CLAIMED = {
   technique="deterministic simulation with fault injection: the real jaq binary under a ptrace OS simulator; kill-point and errno sweeps over the fault-free --in-place trace, end-state invariants",
   text="Per generated world (1-3 input files, modes, decoys, filters that succeed/fail at value k, parse errors at value k) the fault-free -i trace defines a finite fault space (kill before every counted syscall, torn writes, every errno of each call's menu, EINTR/short I/O, a mount boundary that makes cross-directory renames fail). Thorough sweeps that space completely per world, quick samples it. After every run the file system is compared with the only allowed states (original bytes / complete output of the same invocation without -i, prefix order over files, modes, no left-overs, bystanders untouched). This is enumeration of crash points and failures, which is what the property quantifies over; it is evidence over the sampled worlds, not a proof over all programs.",
   note="Trusted: kernel, libc, the ptrace tracer, and the binary's own non-in-place output as definition of 'complete output' (the statement's own definition). A killed process is modelled, not power loss."),
+ "C16": dict(
+  level="exploration", design="§3 C16", engine="simos",
+  technique="deterministic simulation with fault injection: the real jaq binary in a simulated file tree and environment (HOME, $ORIGIN, cwd, -L lists) with copies of every module planted in seeded subsets of the candidate directories; open/stat/read failures injected on the best-ranked candidate; loaded copy compared with a candidate-order model",
+  text="Restricted scope: decides the look-up sentence of the statement (search metadata relative to the importing file or the cwd, before -L paths or the defaults; ~ and $ORIGIN expansion; extension appended only when none is given; absolute paths refused; cycles reported) and the load-once clause (opens per module file bounded by its in-degree on layered diamonds), by running the real binary on seeded file trees in which every candidate copy announces its own location, with symlinked, dangling, looping and directory candidates, decoys in unsearched directories, and injected open/stat/read failures on the winning candidate (outcome: status 3 or the next candidate in model order, never another copy, a panic or a hang). NOT decided: 'a modular program computes what its inlined form computes' - a pure function of the module texts with no schedule or fault in it.",
+  note="Trusted: kernel, libc, ptrace tracer, the candidate-order model (c16.rs, ~60 lines). The equation modular = inlined is not claimed."),
  "C17": dict(
   level="exploration", design="§3 C17", engine="simos",
   technique="deterministic simulation with fault injection: the real jaq binary under a ptrace OS simulator, seeded stdin delivery schedules (chunking, EINTR, stall), short/failed writes, failed reads/opens; stdout/exit/stderr history compared with an executable reference model of the command line",
@@ -36,7 +41,6 @@ PENDING = {
  "C03": "claimed by DESIGN.md (trace refinement over simlib + stdin stall in simos); check not yet implemented in this commit",
  "C05": "claimed by DESIGN.md for the stream-facing surface only; check not yet implemented in this commit",
  "C06": "claimed by DESIGN.md (syscall policy monitor in simos); check not yet implemented in this commit",
- "C16": "claimed by DESIGN.md for the look-up part only; check not yet implemented in this commit",
  "C19": "claimed by DESIGN.md (shuttle schedules + static Send/Sync); check not yet implemented in this commit",
 }
 
